@@ -266,6 +266,11 @@ def run(ctx):
         nb = n_big if not kw.get("halfway") else min(n_big, 2000)
         if kw.get("cache_size") == 0 and not kw.get("dt_hint"):
             nb = min(nb, 400 if quick else 3000)       # without any cache every query recomputes its whole ancestry
+        if kw.get("shape") == "two_rate" and kw.get("cache_size") is not None and kw["cache_size"] <= 2:
+            # the first fine step after the coarse stretch re-shapes the whole tree into 1 / (0.8 cache h_fine) pieces in
+            # ONE call (the mechanism of K9 at the moderate ratio of this history): 6e5 splits for n = 30000 and cache 2,
+            # ~20 s of CPU time - legitimate work that must not meet the watchdog; n = 4000 keeps it below 1e5 splits
+            nb = min(nb, 4000)
         rb = P.long_run(nb, **kw)
         ctx.case(("long", str(sorted(kw.items(), key=str))), sample=dict(run=kw, small=rs, big=rb))
         for r in (rs, rb):
